@@ -456,11 +456,12 @@ enum Tok {
 
 /// splits a payload (starting between sequences) into complete, well-formed
 /// tokens; None when anything unusual occurs
-fn tokenize(b: &[u8]) -> Option<Vec<Tok>> {
+fn tokenize_spans(b: &[u8]) -> Option<Vec<(Tok, usize)>> {
     let mut i = 0;
     let mut out = vec![];
     while i < b.len() {
         let x = b[i];
+        let start = i;
         if x == 0x1b {
             let k = *b.get(i + 1)?;
             match k {
@@ -487,7 +488,7 @@ fn tokenize(b: &[u8]) -> Option<Vec<Tok>> {
                     if !(0x40..=0x7e).contains(&fin) || inter.len() > 2 {
                         return None;
                     }
-                    out.push(Tok::Csi { private, params, inter, fin });
+                    out.push((Tok::Csi { private, params, inter, fin }, start));
                     i = j + 1;
                 }
                 b']' => {
@@ -510,7 +511,7 @@ fn tokenize(b: &[u8]) -> Option<Vec<Tok>> {
                         }
                         j += 1;
                     }
-                    out.push(Tok::Osc);
+                    out.push((Tok::Osc, start));
                     i = j;
                 }
                 b'P' | b'X' | b'^' | b'_' => {
@@ -529,7 +530,7 @@ fn tokenize(b: &[u8]) -> Option<Vec<Tok>> {
                         }
                         j += 1;
                     }
-                    out.push(Tok::Str(k));
+                    out.push((Tok::Str(k), start));
                     i = j;
                 }
                 0x20..=0x2f => {
@@ -542,20 +543,20 @@ fn tokenize(b: &[u8]) -> Option<Vec<Tok>> {
                     if !(0x30..=0x7e).contains(&fin) || inter.len() > 2 {
                         return None;
                     }
-                    out.push(Tok::Esc { inter, fin });
+                    out.push((Tok::Esc { inter, fin }, start));
                     i = j + 1;
                 }
                 0x30..=0x7e => {
-                    out.push(Tok::Esc { inter: vec![], fin: k });
+                    out.push((Tok::Esc { inter: vec![], fin: k }, start));
                     i += 2;
                 }
                 _ => return None,
             }
         } else if x < 0x20 {
-            out.push(Tok::C0(x));
+            out.push((Tok::C0(x), start));
             i += 1;
         } else if x < 0x80 {
-            out.push(Tok::Print(x as char));
+            out.push((Tok::Print(x as char), start));
             i += 1;
         } else {
             let n = match x {
@@ -565,11 +566,15 @@ fn tokenize(b: &[u8]) -> Option<Vec<Tok>> {
                 _ => return None,
             };
             let s = std::str::from_utf8(b.get(i..i + n)?).ok()?;
-            out.push(Tok::Print(s.chars().next()?));
+            out.push((Tok::Print(s.chars().next()?), start));
             i += n;
         }
     }
     Some(out)
+}
+
+fn tokenize(b: &[u8]) -> Option<Vec<Tok>> {
+    tokenize_spans(b).map(|v| v.into_iter().map(|x| x.0).collect())
 }
 
 /// parameter groups as the parser library delivers them (u16 saturating, empty = 0);
@@ -1266,6 +1271,18 @@ fn run_c03(case: &Case, seed: u64, rep: &mut Rep) {
             }
         }
     }
+    // a few more operations after the script (the search engine part): reported with the bytes
+    if let Some(p) = ctx.parser.as_mut() {
+        let (r, c) = p.screen().size();
+        let dim = gen::Dim { rows: r.min(1000), cols: c.min(1000) };
+        let nops = 1 + rng.below(6);
+        if let Ok(suffix) = guard(|| gen::gen_stream(&mut rng, dim, nops, &gen::Feat::all())) {
+            if let Err(m) = guard(|| p.process(&suffix)) {
+                rep.fail("panic", &format!("end: after appending `P {}` to the case: {m}", hex(&suffix)));
+                return;
+            }
+        }
+    }
     // accessors with arbitrary arguments on the final screen
     if let Some(s) = ctx.screen() {
         let others: Vec<&Screen> = ctx.snaps.values().filter(|q| q.size() == s.size()).collect();
@@ -1319,7 +1336,7 @@ fn cost_sweep(rep: &mut Rep) {
                         }
                         best = best.min(dt);
                         runs += 1;
-                        if best <= 10_000 {
+                        if best <= 50_000 {
                             break;
                         }
                     }
@@ -1619,6 +1636,144 @@ fn ref_sgr(mut pen: Pen, groups: &[Vec<u16>]) -> SgrRes {
         i += 1;
     }
     SgrRes::Pen(pen)
+}
+
+
+fn sgr_for(p: &Pen) -> String {
+    // a plain SGR string selecting pen `p` from any pen (statement of C09)
+    let col = |base: u8, c: vt100::Color| match c {
+        vt100::Color::Default => format!(";{}", base + 9),
+        vt100::Color::Idx(i) => format!(";{};5;{i}", base + 8),
+        vt100::Color::Rgb(r, g, b) => format!(";{};2;{r};{g};{b}", base + 8),
+    };
+    let mut q = String::from("\x1b[0");
+    q.push_str(&col(30, p.fg));
+    q.push_str(&col(40, p.bg));
+    if p.bold {
+        q.push_str(";1");
+    }
+    if p.dim {
+        q.push_str(";2");
+    }
+    if p.italic {
+        q.push_str(";3");
+    }
+    if p.underline {
+        q.push_str(";4");
+    }
+    if p.inverse {
+        q.push_str(";7");
+    }
+    q.push('m');
+    q
+}
+
+/// once per file: attributes_formatted for a covering set of pens, and the pen-to-pen
+/// changes the crate emits (through contents_diff) for ordered pairs of pens
+fn pen_sweep(seed: u64, rep: &mut Rep) {
+    use vt100::Color;
+    let mut rng = Rng::new(seed ^ 0x70656e);
+    let colours = [
+        Color::Default, Color::Idx(0), Color::Idx(1), Color::Idx(7), Color::Idx(8), Color::Idx(9), Color::Idx(15), Color::Idx(16), Color::Idx(17), Color::Idx(231), Color::Idx(255),
+        Color::Rgb(0, 0, 0), Color::Rgb(1, 2, 3), Color::Rgb(255, 255, 255),
+    ];
+    let mut pens = vec![];
+    for fg in colours {
+        for bg in colours {
+            for inten in 0..3 {
+                for flags in 0..8 {
+                    pens.push(Pen { fg, bg, bold: inten == 1, dim: inten == 2, italic: flags & 1 != 0, underline: flags & 2 != 0, inverse: flags & 4 != 0 });
+                }
+            }
+        }
+    }
+    rep.begin_case("BUILTIN-pens");
+    let mk = |p: &Pen| -> Option<vt100::Parser> {
+        let mut x = fresh(1, 2);
+        x.process(sgr_for(p).as_bytes());
+        if Pen::of(x.screen()) == *p {
+            Some(x)
+        } else {
+            None
+        }
+    };
+    // attributes_formatted on receivers with another pen
+    for (i, p) in pens.iter().enumerate() {
+        let r = guard(|| {
+            let Some(x) = mk(p) else { return Some(format!("SGR {:?} does not select pen {p:?}", sgr_for(p))) };
+            let af = x.screen().attributes_formatted();
+            let other = &pens[(i * 7919 + 13) % pens.len()];
+            for pre in [None, Some(other)] {
+                let mut y = fresh(1, 2);
+                if let Some(o) = pre {
+                    y.process(sgr_for(o).as_bytes());
+                }
+                y.process(&af);
+                if Pen::of(y.screen()) != *p {
+                    return Some(format!("attributes_formatted {} for pen {p:?} on a receiver with pen {:?} gives {:?}", hex(&af), pre, Pen::of(y.screen())));
+                }
+            }
+            None
+        });
+        rep.eval();
+        if let Ok(Some(m)) = r {
+            rep.fail("attrs_formatted", &m);
+        }
+    }
+    // pen-to-pen changes: structured pairs (one colour to another) plus random pairs
+    let mut pairs: Vec<(Pen, Pen)> = vec![];
+    for a in colours {
+        for b in colours {
+            let mut p = Pen::default_pen();
+            let mut q = Pen::default_pen();
+            p.fg = a;
+            q.fg = b;
+            pairs.push((p, q));
+            let mut p = Pen::default_pen();
+            let mut q = Pen::default_pen();
+            p.bg = a;
+            q.bg = b;
+            p.bold = true;
+            q.bold = true;
+            pairs.push((p, q));
+        }
+    }
+    for _ in 0..if rep.thorough { 3000 } else { 600 } {
+        pairs.push((*rng.pick(&pens), *rng.pick(&pens)));
+    }
+    for (a, b) in pairs {
+        let r = guard(|| {
+            let (Some(pa), Some(pb)) = (mk(&a), mk(&b)) else { return None };
+            let d = pb.screen().contents_diff(pa.screen());
+            let mut y = fresh(1, 2);
+            y.process(&pa.screen().contents_formatted());
+            if Pen::of(y.screen()) != a {
+                return Some(format!("contents_formatted of a blank screen with pen {a:?} leaves pen {:?}", Pen::of(y.screen())));
+            }
+            y.process(&d);
+            if Pen::of(y.screen()) != b {
+                return Some(format!("the change from pen {a:?} to pen {b:?} is emitted as {} and gives {:?}", hex(&d), Pen::of(y.screen())));
+            }
+            // the same change inside a row: a cell written with pen a followed by one with pen b
+            let mut w = fresh(1, 2);
+            w.process(sgr_for(&a).as_bytes());
+            w.process(b"x");
+            w.process(sgr_for(&b).as_bytes());
+            w.process(b"y");
+            let mut z = fresh(1, 2);
+            z.process(&w.screen().contents_formatted());
+            for c in 0..2 {
+                if z.screen().cell(0, c).map(cell_str) != w.screen().cell(0, c).map(cell_str) {
+                    return Some(format!("row with pens {a:?} then {b:?}: contents_formatted {} reproduces cell (0,{c}) as {:?}", hex(&w.screen().contents_formatted()), z.screen().cell(0, c).map(cell_str)));
+                }
+            }
+            None
+        });
+        rep.eval();
+        if let Ok(Some(m)) = r {
+            rep.fail("pen_change", &m);
+        }
+    }
 }
 
 fn c09_receivers(s: &Screen, rep: &mut Rep, at: &str) {
@@ -2029,128 +2184,157 @@ fn run_c11(case: &Case, _seed: u64, rep: &mut Rep) {
             }
             continue;
         }
-        let Some(before_screen) = ctx.screen() else { continue };
-        let alt_before = before_screen.alternate_screen();
-        let cursor_before = before_screen.cursor_position();
-        let size_before = before_screen.size();
-        let dump_before = if exc.is_none() { Some(parse_dump(&before_screen.verif_dump())) } else { None };
-        let was_clean = tracker.clean();
-        let payload: Option<&[u8]> = match &op {
-            Op::P(b) | Op::W(b) => Some(b),
-            _ => None,
-        };
-        if let Some(b) = payload {
-            tracker.feed(b);
-        }
-        if ctx.apply(&op).is_err() {
-            rep.stat("replay_panics", 1);
-            return;
-        }
-        let s = ctx.screen().unwrap();
-        let alt_after = s.alternate_screen();
-        let exact = |x: &[u8]| was_clean && payload == Some(x);
-        let entry47 = exact(b"\x1b[?47h");
-        let entry1049 = exact(b"\x1b[?1049h");
-        let exit47 = exact(b"\x1b[?47l");
-        let exit1049 = exact(b"\x1b[?1049l");
-
-        // a resize (set_size, or CSI 8 t through a resizing callback) ends all bookkeeping
-        let resized = matches!(op, Op::Size(..)) || s.size() != size_before;
-        // ---- DECSC / DECRC
-        if resized {
-            saved = None;
-        }
-        if let Some(b) = payload {
-            if exact(b"\x1b7") {
-                let origin = {
-                    let d = parse_dump(&s.verif_dump());
-                    if alt_after { d.alt.get("origin").to_string() } else { d.main.get("origin").to_string() }
-                };
-                saved = Some((s.cursor_position(), Pen::of(s), origin, vec![]));
-            } else if exact(b"\x1b8") {
-                if let Some((pos, pen, origin, stream)) = saved.as_ref() {
-                    let (ris, decsc, alt) = scan_switches(stream);
-                    if !ris && !decsc && !alt && tracker.st != Vs::Poisoned {
-                        rep.eval();
-                        let d = parse_dump(&s.verif_dump());
-                        let o = if alt_after { d.alt.get("origin").to_string() } else { d.main.get("origin").to_string() };
-                        if s.cursor_position() != *pos || Pen::of(s) != *pen || o != *origin {
-                            rep.fail("decrc", &format!("{at}: DECRC restored pos {:?} pen {:?} origin {o}; DECSC had saved pos {pos:?} pen {pen:?} origin {origin}", s.cursor_position(), Pen::of(s)));
+        // complete sequences inside one payload are looked at one by one (C04: the chunking does not matter)
+        let steps: Vec<Op> = match &op {
+            Op::P(b) | Op::W(b) if tracker.clean() => match tokenize_spans(b) {
+                Some(t) if t.len() > 1 => {
+                    let mut v: Vec<Op> = vec![];
+                    let mut run_start: Option<usize> = None;
+                    for (k, (tok, start)) in t.iter().enumerate() {
+                        let end = t.get(k + 1).map_or(b.len(), |x| x.1);
+                        if matches!(tok, Tok::Esc { .. } | Tok::Csi { .. }) {
+                            if let Some(rs) = run_start.take() {
+                                v.push(Op::P(b[rs..*start].to_vec()));
+                            }
+                            v.push(Op::P(b[*start..end].to_vec()));
+                        } else if run_start.is_none() {
+                            run_start = Some(*start);
                         }
                     }
+                    if let Some(rs) = run_start {
+                        v.push(Op::P(b[rs..].to_vec()));
+                    }
+                    v
                 }
-            } else if let Some(sv) = saved.as_mut() {
-                sv.3.extend_from_slice(b);
-                if !tracker.clean() && tracker.st == Vs::Poisoned {
-                    saved = None;
-                }
+                _ => vec![op],
+            },
+            _ => vec![op],
+        };
+        for op in steps {
+            let Some(before_screen) = ctx.screen() else { continue };
+            let alt_before = before_screen.alternate_screen();
+            let cursor_before = before_screen.cursor_position();
+            let size_before = before_screen.size();
+            let nev_before = ctx.parser.as_ref().unwrap().callbacks().events.len();
+            let dump_before = if exc.is_none() { Some(parse_dump(&before_screen.verif_dump())) } else { None };
+            let was_clean = tracker.clean();
+            let payload: Option<&[u8]> = match &op {
+                Op::P(b) | Op::W(b) => Some(b),
+                _ => None,
+            };
+            if let Some(b) = payload {
+                tracker.feed(b);
             }
-        }
+            if ctx.apply(&op).is_err() {
+                rep.stat("replay_panics", 1);
+                return;
+            }
+            let s = ctx.screen().unwrap();
+            let alt_after = s.alternate_screen();
+            let exact = |x: &[u8]| was_clean && payload == Some(x);
+            let entry47 = exact(b"\x1b[?47h");
+            let entry1049 = exact(b"\x1b[?1049h");
+            let exit47 = exact(b"\x1b[?47l");
+            let exit1049 = exact(b"\x1b[?1049l");
 
-        // ---- alternate screen
-        if let Some(e) = exc.as_mut() {
-            // inside an excursion
-            let is_exit = exit47 || exit1049;
-            if !is_exit {
-                if let Some(b) = payload {
-                    e.stream.extend_from_slice(b);
-                }
-                let (ris, _, alt) = scan_switches(&e.stream);
-                if resized || ris || alt || !alt_after || tracker.st == Vs::Poisoned {
-                    return; // stop checking this case
-                }
-            }
+            // a resize (set_size, or CSI 8 t through a resizing callback) ends all bookkeeping
+            let resized = matches!(op, Op::Size(..)) || s.size() != size_before || ctx.parser.as_ref().unwrap().callbacks().events[nev_before..].iter().any(|e| e.starts_with("EV resize"));
+            // ---- DECSC / DECRC
             if resized {
-                return;
+                saved = None;
             }
-            rep.eval();
-            let d = parse_dump(&s.verif_dump());
-            if !is_exit && d.alt.num("nsb") != 0 {
-                rep.fail("alt_scrollback", &format!("{at}: the alternate screen has {} scrollback rows", d.alt.get("nsb")));
-            }
-            if let Some(diff) = main_keep_diff(&e.keep, &main_keep(&d)) {
-                rep.fail("alt_isolation", &format!("{at}: primary screen changed during the excursion: {diff}"));
-                return;
-            }
-            if is_exit {
-                if alt_after {
-                    rep.fail("alt_exit", &format!("{at}: still on the alternate screen after the reset"));
-                } else if e.by1049 && exit1049 && s.cursor_position() != e.cursor_before {
-                    rep.fail("alt_cursor", &format!("{at}: cursor after ?1049l is {:?}, before ?1049h it was {:?}", s.cursor_position(), e.cursor_before));
-                }
-                exc = None;
-            }
-        } else if (entry47 || entry1049) && !alt_before {
-            rep.eval();
-            let d = parse_dump(&s.verif_dump());
-            let before = dump_before.unwrap();
-            if !alt_after {
-                rep.fail("alt_entry", &format!("{at}: not on the alternate screen after the set"));
-                continue;
-            }
-            if d.main.num("off") != 0 {
-                rep.fail("alt_offset", &format!("{at}: scrollback offset of the primary screen is {} after entering the alternate screen", d.main.get("off")));
-            }
-            if entry1049 {
-                let dirty = d.alt.l_rows.iter().position(|r| {
-                    let (w, cells) = dump_row_cells(r);
-                    w != "0" || cells.iter().any(|c| c != "_")
-                });
-                if let Some(i) = dirty {
-                    rep.fail("alt_clear", &format!("{at}: alternate screen row {i} not blank after ?1049h: `{}`", d.alt.l_rows[i]));
-                }
-                if d.alt.get("pos") != "0,0" {
-                    rep.fail("alt_clear", &format!("{at}: alternate screen cursor at {} after ?1049h", d.alt.get("pos")));
+            if let Some(b) = payload {
+                if exact(b"\x1b7") {
+                    let origin = {
+                        let d = parse_dump(&s.verif_dump());
+                        if alt_after { d.alt.get("origin").to_string() } else { d.main.get("origin").to_string() }
+                    };
+                    saved = Some((s.cursor_position(), Pen::of(s), origin, vec![]));
+                } else if exact(b"\x1b8") {
+                    if let Some((pos, pen, origin, stream)) = saved.as_ref() {
+                        let (ris, decsc, alt) = scan_switches(stream);
+                        if !ris && !decsc && !alt && tracker.st != Vs::Poisoned {
+                            rep.eval();
+                            let d = parse_dump(&s.verif_dump());
+                            let o = if alt_after { d.alt.get("origin").to_string() } else { d.main.get("origin").to_string() };
+                            if s.cursor_position() != *pos || Pen::of(s) != *pen || o != *origin {
+                                rep.fail("decrc", &format!("{at}: DECRC restored pos {:?} pen {:?} origin {o}; DECSC had saved pos {pos:?} pen {pen:?} origin {origin}", s.cursor_position(), Pen::of(s)));
+                            }
+                        }
+                    }
+                } else if let Some(sv) = saved.as_mut() {
+                    sv.3.extend_from_slice(b);
+                    if !tracker.clean() && tracker.st == Vs::Poisoned {
+                        saved = None;
+                    }
                 }
             }
-            if d.alt.num("nsb") != 0 {
-                rep.fail("alt_scrollback", &format!("{at}: the alternate screen has {} scrollback rows", d.alt.get("nsb")));
+
+            // ---- alternate screen
+            if let Some(e) = exc.as_mut() {
+                // inside an excursion
+                let is_exit = exit47 || exit1049;
+                if !is_exit {
+                    if let Some(b) = payload {
+                        e.stream.extend_from_slice(b);
+                    }
+                    let (ris, _, alt) = scan_switches(&e.stream);
+                    if resized || ris || alt || !alt_after || tracker.st == Vs::Poisoned {
+                        return; // stop checking this case
+                    }
+                }
+                if resized {
+                    return;
+                }
+                rep.eval();
+                let d = parse_dump(&s.verif_dump());
+                if !is_exit && d.alt.num("nsb") != 0 {
+                    rep.fail("alt_scrollback", &format!("{at}: the alternate screen has {} scrollback rows", d.alt.get("nsb")));
+                }
+                if let Some(diff) = main_keep_diff(&e.keep, &main_keep(&d)) {
+                    rep.fail("alt_isolation", &format!("{at}: primary screen changed during the excursion: {diff}"));
+                    return;
+                }
+                if is_exit {
+                    if alt_after {
+                        rep.fail("alt_exit", &format!("{at}: still on the alternate screen after the reset"));
+                    } else if e.by1049 && exit1049 && s.cursor_position() != e.cursor_before {
+                        rep.fail("alt_cursor", &format!("{at}: cursor after ?1049l is {:?}, before ?1049h it was {:?}", s.cursor_position(), e.cursor_before));
+                    }
+                    exc = None;
+                }
+            } else if (entry47 || entry1049) && !alt_before {
+                rep.eval();
+                let d = parse_dump(&s.verif_dump());
+                let before = dump_before.unwrap();
+                if !alt_after {
+                    rep.fail("alt_entry", &format!("{at}: not on the alternate screen after the set"));
+                    continue;
+                }
+                if d.main.num("off") != 0 {
+                    rep.fail("alt_offset", &format!("{at}: scrollback offset of the primary screen is {} after entering the alternate screen", d.main.get("off")));
+                }
+                if entry1049 {
+                    let dirty = d.alt.l_rows.iter().position(|r| {
+                        let (w, cells) = dump_row_cells(r);
+                        w != "0" || cells.iter().any(|c| c != "_")
+                    });
+                    if let Some(i) = dirty {
+                        rep.fail("alt_clear", &format!("{at}: alternate screen row {i} not blank after ?1049h: `{}`", d.alt.l_rows[i]));
+                    }
+                    if d.alt.get("pos") != "0,0" {
+                        rep.fail("alt_clear", &format!("{at}: alternate screen cursor at {} after ?1049h", d.alt.get("pos")));
+                    }
+                }
+                if d.alt.num("nsb") != 0 {
+                    rep.fail("alt_scrollback", &format!("{at}: the alternate screen has {} scrollback rows", d.alt.get("nsb")));
+                }
+                let keep = main_keep(&before);
+                if let Some(diff) = main_keep_diff(&keep, &main_keep(&d)) {
+                    rep.fail("alt_isolation", &format!("{at}: primary screen changed by entering the alternate screen: {diff}"));
+                }
+                exc = Some(Excursion { by1049: entry1049, keep, cursor_before, stream: vec![] });
             }
-            let keep = main_keep(&before);
-            if let Some(diff) = main_keep_diff(&keep, &main_keep(&d)) {
-                rep.fail("alt_isolation", &format!("{at}: primary screen changed by entering the alternate screen: {diff}"));
-            }
-            exc = Some(Excursion { by1049: entry1049, keep, cursor_before, stream: vec![] });
         }
     }
 }
@@ -2294,6 +2478,13 @@ fn run_c12(case: &Case, seed: u64, rep: &mut Rep) {
             _ => {}
         }
         let Some(p) = ctx.parser.as_mut() else { continue };
+        {
+            let (r0, c0) = p.screen().size();
+            if u32::from(r0) * u32::from(c0) > 20_000 {
+                rep.stat("skipped_large_screen", 1);
+                return;
+            }
+        }
         let mut text = p.screen().verif_dump();
         let mut d = parse_dump(&text);
         let mut ok = true;
@@ -3078,6 +3269,7 @@ fn run_c16(case: &Case, _seed: u64, rep: &mut Rep) {
             }
             Op::P(_) | Op::W(_) => {
                 let nev = ctx.parser.as_ref().map_or(0, |p| p.callbacks().events.len());
+                let size_before = ctx.screen().map(Screen::size);
                 if let Err(m) = ctx.apply(&op) {
                     if resized {
                         rep.fail("panic", &format!("{at} `{line}` after a resize: {m}"));
@@ -3087,7 +3279,9 @@ fn run_c16(case: &Case, _seed: u64, rep: &mut Rep) {
                     return;
                 }
                 let p = ctx.parser.as_ref().unwrap();
-                if ctx.resizing {
+                let s = p.screen();
+                if Some(s.size()) != size_before {
+                    // set_size was called from the resize callback while CSI 8;r;c t was processed
                     let req: Vec<(u16, u16)> = p.callbacks().events[nev..]
                         .iter()
                         .filter_map(|e| {
@@ -3098,20 +3292,17 @@ fn run_c16(case: &Case, _seed: u64, rep: &mut Rep) {
                                 None
                             }
                         })
-                        .filter(|(a, b)| *a >= 1 && *b >= 1)
                         .collect();
-                    if let Some(&(r, c)) = req.last() {
-                        resized = true;
-                        rep.eval();
-                        let s = p.screen();
-                        if s.size() != (r, c) {
-                            rep.fail("resize", &format!("{at}: size() = {:?} after set_size({r},{c}) from the resize callback", s.size()));
-                            return;
-                        }
-                        if let Some(pr) = c16_bounds(&parse_dump(&s.verif_dump()), r, c, false) {
-                            rep.fail("resize", &format!("{at} `{line}` (resize callback): {pr}"));
-                            return;
-                        }
+                    resized = true;
+                    rep.eval();
+                    let (r, c) = s.size();
+                    if !req.contains(&(r, c)) {
+                        rep.fail("resize", &format!("{at}: size() = {:?} after the resize requests {req:?}", s.size()));
+                        return;
+                    }
+                    if let Some(pr) = c16_bounds(&parse_dump(&s.verif_dump()), r, c, false) {
+                        rep.fail("resize", &format!("{at} `{line}` (resize callback): {pr}"));
+                        return;
                     }
                 }
             }
@@ -3200,7 +3391,8 @@ fn run_c17(case: &Case, seed: u64, rep: &mut Rep) {
     for round in 0..rounds {
         let (r, c) = p.screen().size();
         let nops = 1 + rng.below(8);
-        let suffix = gen::gen_stream(&mut rng, gen::Dim { rows: r, cols: c }, nops, &gen::Feat::all());
+        let dim = gen::Dim { rows: r.min(1000), cols: c.min(1000) };
+        let Ok(suffix) = guard(|| gen::gen_stream(&mut rng, dim, nops, &gen::Feat::all())) else { return };
         let ncuts = rng.below(3);
         let chunks = gen::cut(&mut rng, &suffix, ncuts);
         let np = p.callbacks().events.len();
@@ -3309,7 +3501,12 @@ fn c18_expected(t: &Tok, size: (u16, u16)) -> Option<Vec<String>> {
                 _ => Some(vec![report]),
             }
         }
-        Tok::Str(b'P') => None,
+        Tok::Print(c) => Some(match *c as u32 {
+            0x80..=0x9f => vec![format!("EV ctl {}", *c as u32)],
+            0xfffd => vec!["EV char 65533".to_string()],
+            _ => vec![],
+        }),
+        Tok::Str(b'P') => Some(vec!["EV esc - - 92".to_string()]),
         _ => None,
     }
 }
@@ -3349,6 +3546,7 @@ fn run_c18(case: &Case, _seed: u64, rep: &mut Rep) {
                 let before = p.screen().verif_dump();
                 let size = p.screen().size();
                 let nev = p.callbacks().events.len();
+                let pre_screen = if is_op && was_clean { Some(p.screen().clone()) } else { None };
                 if ctx.apply(&op).is_err() {
                     rep.stat("replay_panics", 1);
                     return;
@@ -3357,13 +3555,60 @@ fn run_c18(case: &Case, _seed: u64, rep: &mut Rep) {
                     continue;
                 }
                 let Some(toks) = tokenize(b) else { continue };
-                if toks.len() != 1 {
+                if toks.is_empty() {
                     continue;
+                }
+                // the same sequences arriving one byte at a time are reported the same way
+                if let Some(pre) = pre_screen {
+                    let mut want: Option<Vec<String>> = Some(vec![]);
+                    for t in &toks {
+                        let e = if toks.len() > 1 && matches!(t, Tok::Csi { fin: b't', .. }) { None } else { c18_expected(t, size) };
+                        match (want.as_mut(), e) {
+                            (Some(w), Some(e)) => w.extend(e),
+                            _ => want = None,
+                        }
+                    }
+                    if let Some(want) = want {
+                        let resizing = ctx.resizing;
+                        let r = guard(|| {
+                            let mut tw = vt100::Parser::new_with_callbacks(size.0, size.1, 0, Recorder { events: vec![], resizing });
+                            *tw.screen_mut() = pre;
+                            for x in b {
+                                tw.process(&[*x]);
+                            }
+                            tw.callbacks().events.clone()
+                        });
+                        if let Ok(ev) = r {
+                            rep.eval();
+                            if ev != want {
+                                rep.fail("events", &format!("{at}: P {} fed one byte at a time produced events {ev:?}, expected {want:?}", hex(b)));
+                                continue;
+                            }
+                        }
+                    }
                 }
                 let p = ctx.parser.as_ref().unwrap();
                 let events: Vec<String> = p.callbacks().events[nev..].to_vec();
                 let after = p.screen().verif_dump();
                 rep.eval();
+                if toks.len() > 1 {
+                    // several complete sequences: every one reported exactly once, in stream order
+                    // (a resize request in the middle would change the defaults of a later one: left alone)
+                    let mut want: Option<Vec<String>> = Some(vec![]);
+                    for t in &toks {
+                        let e = if matches!(t, Tok::Csi { fin: b't', .. }) { None } else { c18_expected(t, size) };
+                        match (want.as_mut(), e) {
+                            (Some(w), Some(e)) => w.extend(e),
+                            _ => want = None,
+                        }
+                    }
+                    if let Some(want) = want {
+                        if events != want {
+                            rep.fail("events", &format!("{at}: P {} produced events {events:?}, expected {want:?}", hex(b)));
+                        }
+                    }
+                    continue;
+                }
                 let t = &toks[0];
                 // inertness
                 let silent_inert = matches!(t, Tok::C0(14 | 15) | Tok::Str(b'P'));
@@ -3556,6 +3801,217 @@ fn run_c19(case: &Case, seed: u64, rep: &mut Rep) {
     }
 }
 
+
+// ---------------------------------------------------------------------------
+// built-in cases, run once per file in addition to the script's cases: inputs
+// the random generators hardly ever produce (every palette colour, mode lists
+// with unknown members, SGR corner cases, a saved cursor across a region change,
+// and an exhaustive little sweep of region x cursor x operation on a 4x3 screen)
+// ---------------------------------------------------------------------------
+
+fn pline(b: &[u8]) -> String {
+    format!("P {}", hex(b))
+}
+
+fn builtin_cases(prop: &str, seed: u64) -> Vec<Case> {
+    let mut v = vec![];
+    let mk = |id: &str, lines: Vec<String>| Case { id: format!("BUILTIN-{id}"), lines };
+    let tail_obs = |lines: &mut Vec<String>, cols: u16| {
+        for l in ["DUMP", "LOG", "FMT state", "FMT contents", "FMT attrs", "FMT cursor", "FMT input", "DIFF state 0", "DIFF contents 0", "DIFF input 0", "TEXT"] {
+            lines.push(l.to_string());
+        }
+        lines.push(format!("ROWSF 0 {cols}"));
+        lines.push(format!("ROWSD 0 0 {cols}"));
+        lines.push(format!("ROWSF 1 {}", cols - 2));
+        lines.push(format!("ROWSD 0 1 {}", cols - 2));
+        lines.push(format!("ROWS 1 {}", cols - 2));
+    };
+    // 1. every indexed colour as foreground, then as background, then RGB and attribute mixes
+    if prop != "C12" {
+        let mut lines = vec!["NEW 17 16 2 0".to_string()];
+        let mut b = vec![];
+        for i in 0..256 {
+            b.extend(format!("\x1b[38;5;{i}m{}", (b'a' + (i % 26) as u8) as char).as_bytes());
+        }
+        lines.push(pline(&b));
+        lines.push("SNAP 0".into());
+        lines.push("FMT state".into());
+        let mut b = b"\x1b[H".to_vec();
+        for i in 0..256 {
+            b.extend(format!("\x1b[48;5;{i}m{}", if i % 3 == 0 { ' ' } else { 'x' }).as_bytes());
+        }
+        lines.push(pline(&b));
+        tail_obs(&mut lines, 16);
+        lines.push("SNAP 1".into());
+        let mut b = b"\x1b[H\x1b[m".to_vec();
+        for i in 0..64u32 {
+            let (r, g, bl) = (i * 4 % 256, 255 - i, if i % 2 == 0 { 0 } else { 255 });
+            b.extend(format!("\x1b[{};38;2;{r};{g};{bl}m\x1b[48;2;{bl};{r};{g}m", [0, 1, 2, 3, 4, 7, 22, 23][(i % 8) as usize]).as_bytes());
+            b.extend(if i % 5 == 0 { "世".as_bytes() } else { b"q" });
+        }
+        lines.push(pline(&b));
+        tail_obs(&mut lines, 16);
+        lines.push("DIFF state 1".into());
+        for pen in ["48;5;16", "38;5;16;48;5;8", "38;5;15;48;5;17", "0;48;5;7", "1;38;5;8", "2;3;4;7;38;5;255"] {
+            lines.push(pline(format!("\x1b[{pen}m").as_bytes()));
+            lines.push("FMT state".into());
+            lines.push("FMT attrs".into());
+            lines.push("DIFF state 1".into());
+        }
+        v.push(mk("colours", lines));
+    }
+    // 2. mode lists with unknown members, resets of inactive mouse modes
+    {
+        let mut lines = vec!["NEW 2 4 0 0".to_string()];
+        let seqs: [&str; 14] = [
+            "\x1b[?12;25l", "\x1b[?7;1;0;9;3;1005;99;2004h", "\x1b[?1:2;1000h", "\x1b[?1001;9l", "\x1b[?5;1000;4;1006l", "\x1b=", "\x1b[?1006;12;1002h",
+            "\x1b[?1003;1005l", "\x1b[?;25;;1h", "\x1b[?1002;1006;2004;1l", "\x1b>", "\x1b[?65535;1003;65536;1005h", "\x1b[?25;1003l", "\x1b[?9;1000;1002;1003;1005;1006h",
+        ];
+        lines.push(pline(seqs[0].as_bytes()));
+        lines.push("SNAP 0".into());
+        for (i, q) in seqs.iter().enumerate().skip(1) {
+            lines.push(pline(q.as_bytes()));
+            for l in ["FMT input", "FMT state", "DIFF input 0", "DIFF state 0"] {
+                lines.push(l.into());
+            }
+            if i == 6 {
+                lines.push("SNAP 1".into());
+            }
+            if i > 6 {
+                lines.push("DIFF input 1".into());
+                lines.push("DIFF state 1".into());
+            }
+        }
+        v.push(mk("modes", lines));
+    }
+    // 3. SGR corner cases
+    {
+        let mut lines = vec!["NEW 2 6 0 0".to_string()];
+        for q in [
+            "1;2;3;4;7", "22;23", "38;5;16;48;5;16", "5;1;8;3", "38;2;1;2;3;4", "48:2:1:2:3;7", "38;5;300;1", "0;38;2;255;255;255;48;5;0", "24;27;58;5;1;2", "38:5:16;48:5:15", "38;5;;4",
+            "39;49;1", "90;107", "97;100;22", "38;2;1;2;256;3", "38;9;1", "4:3;1", ";", "38:2::1:2:3;3", "21;1",
+        ] {
+            lines.push(pline(format!("\x1b[{q}mx").as_bytes()));
+            lines.push("FMT attrs".into());
+        }
+        lines.push("FMT state".into());
+        v.push(mk("sgr", lines));
+    }
+    // 4. DECSC/DECRC across region, origin mode and pen changes; 1049 in all combinations
+    {
+        let mut lines = vec!["NEW 6 5 2 0".to_string()];
+        for q in ["\x1b[2;4r", "\x1b[?6h", "\x1b[2;3H", "\x1b[31;1m", "\x1b7", "\x1b[4;6r", "\x1b[?6l", "\x1b[5;5H\x1b[m", "\x1b8", "ab", "\x1b[r\x1b[?6h", "\x1b8", "\x1b[1;2r", "\x1b8", "xy"] {
+            lines.push(pline(q.as_bytes()));
+        }
+        lines.push("DUMP".into());
+        for (a, b) in [("1049", "1049"), ("47", "1049"), ("1049", "47"), ("47", "47")] {
+            lines.push(pline(b"\r\nl1\r\nl2\r\nl3\r\nl4\r\nl5\r\nl6\r\nl7"));
+            lines.push("SB 1".into());
+            lines.push(pline(format!("\x1b[?{a}h").as_bytes()));
+            lines.push(pline(b"\x1b[2;3r\x1b[?6h"));
+            lines.push(pline(b"zz\x1b7\r\n\n\n\n\n\x1b[44m\x1b[2J"));
+            lines.push(pline(b"\x1b[3;3H\x1b8"));
+            lines.push(pline(format!("\x1b[?{b}l").as_bytes()));
+            lines.push("DUMP".into());
+        }
+        v.push(mk("decsc-alt", lines));
+    }
+    // 4b. every kind of single sequence between DUMP lines (C18: reported exactly once / inert)
+    if prop != "C12" {
+        let mut lines = vec!["NEW 4 6 1 0".to_string(), pline(b"ab\r\nc\xe4\xb8\x96d\x1b[2;3H")];
+        let mut ops: Vec<Vec<u8>> = vec![];
+        for b in 0u8..32 {
+            if b != 0x1b {
+                ops.push(vec![b]);
+            }
+        }
+        for b in 0x80u8..0xa0 {
+            ops.push(vec![0xc2, b]);
+        }
+        ops.push("\u{fffd}".as_bytes().to_vec());
+        ops.push("\u{a0}".as_bytes().to_vec());
+        ops.push(vec![0x7f]);
+        for f in 0x30u8..0x7f {
+            if !matches!(f, b'[' | b']' | b'P' | b'X' | b'^' | b'_' | b'c') {
+                ops.push(vec![0x1b, f]);
+            }
+            if f % 4 == 0 {
+                ops.push(vec![0x1b, b'(', f]);
+                ops.push(vec![0x1b, b'#', b' ', f]);
+            }
+        }
+        for f in 0x40u8..0x7f {
+            for pre in ["", "?", ">", "="] {
+                for par in ["", "0", "3", "1;2", "8;2;2", "65535", "1:2;;3", "2;70000"] {
+                    if (f as usize + pre.len() + par.len()) % 3 == 0 || matches!(f, b'h' | b'l' | b'm') {
+                        continue;
+                    }
+                    ops.push(format!("\x1b[{pre}{par}{}", f as char).into_bytes());
+                }
+            }
+            ops.push(format!("\x1b[1 {}", f as char).into_bytes());
+            ops.push(format!("\x1b[?1$!{}", f as char).into_bytes());
+        }
+        for q in ["\x1bP1$r\x1b\\", "\x1bPq#0;2;0;0;0\x1b\\", "\x1b]0;t\x07", "\x1b]1;i\x1b\\", "\x1b]2;\x07", "\x1b]52;c;x\x07", "\x1b];\x07", "\x1b_a\x1b\\", "\x1b^b\x1b\\", "\x1bXc\x1b\\"] {
+            ops.push(q.as_bytes().to_vec());
+        }
+        for o in ops {
+            lines.push("DUMP".into());
+            lines.push(pline(&o));
+        }
+        lines.push("DUMP".into());
+        lines.push("LOG".into());
+        v.push(mk("tokens", lines));
+    }
+    // 5. exhaustive little sweep: region x cursor x operation x parameter on a 4x3 screen
+    {
+        let ops: [&str; 16] = ["\x1b[{}L", "\x1b[{}M", "\x1b[{}S", "\x1b[{}T", "\x1b[{}@", "\x1b[{}P", "\x1b[{}X", "\n", "\x1bM", "世", "ab", "\x1b[{}A", "\x1b[{}B", "\x1b[{}J", "\x1b[{}K", "\x1b[{};2H"];
+        let params = ["", "2", "65535"];
+        let all = matches!(prop, "C03" | "C13");
+        let mut r = Rng::new(seed ^ 0x5eed);
+        let mut idx = 0;
+        for t in 1..=4u16 {
+            for b in 1..=4u16 {
+                for row in 1..=4u16 {
+                    for pending in [false, true] {
+                        for op in ops {
+                            for par in params {
+                                if !op.contains("{}") && !par.is_empty() {
+                                    continue;
+                                }
+                                idx += 1;
+                                if !r.chance(1, if all { 8 } else { 40 }) {
+                                    continue;
+                                }
+                                let origin = idx % 3 == 0;
+                                let setup = format!("abc\r\nd世\r\nghi\r\njk\x1b[{t};{b}r{}\x1b[{row};{}H{}", if origin { "\x1b[?6h" } else { "" }, if pending { 3 } else { 2 }, if pending { "z" } else { "" });
+                                let lines = vec![
+                                    format!("NEW 4 3 {} 0", idx % 3),
+                                    pline(setup.as_bytes()),
+                                    "SNAP 0".into(),
+                                    "DUMP".into(),
+                                    "LOG".into(),
+                                    pline(op.replace("{}", par).as_bytes()),
+                                    "DUMP".into(),
+                                    "LOG".into(),
+                                    "FMT state".into(),
+                                    "DIFF state 0".into(),
+                                    "TEXT".into(),
+                                    "ROWSF 0 3".into(),
+                                    "ROWSD 0 0 3".into(),
+                                    "BETWEEN 0 1 3 2".into(),
+                                ];
+                                v.push(mk(&format!("sweep-{idx}"), lines));
+                            }
+                        }
+                    }
+                }
+            }
+        }
+    }
+    v
+}
+
 // ---------------------------------------------------------------------------
 // main
 // ---------------------------------------------------------------------------
@@ -3609,7 +4065,9 @@ fn main() {
         let loc = info.location().map_or_else(|| "?".to_string(), |l| format!("{}:{}", l.file(), l.line()));
         LAST_PANIC.with(|p| *p.borrow_mut() = format!("panic `{msg}` at {loc}"));
     }));
-    let cases = parse_cases(&text);
+    let t_start = std::time::Instant::now();
+    let mut cases = parse_cases(&text);
+    cases.extend(builtin_cases(prop, seed));
     let mut rep = Rep { out: vec![], stats: BTreeMap::new(), evals: 0, case_id: String::new(), case_fails: 0, case_known: 0, thorough };
     for case in &cases {
         rep.begin_case(&case.id);
@@ -3621,8 +4079,18 @@ fn main() {
             eprintln!("oracle: internal panic in case {}: {m}", case.id);
         }
     }
+    let timing = std::env::var("ORACLE_TIMING").is_ok();
+    if timing {
+        eprintln!("oracle: cases done after {:?}", t_start.elapsed());
+    }
+    if prop == "C09" {
+        pen_sweep(seed, &mut rep);
+    }
     if prop == "C03" {
         cost_sweep(&mut rep);
+        if timing {
+            eprintln!("oracle: cost sweep done after {:?}", t_start.elapsed());
+        }
     }
     let stdout = std::io::stdout();
     let mut w = std::io::BufWriter::new(stdout.lock());
